@@ -337,6 +337,14 @@ func TestVerifC11(t *testing.T) {
 		}
 		enc([]fam{{AddressFamily: []byte{0, 1, 1}, Addresses: []asn1.BitString{{Bytes: by, BitLength: bl}}}})
 	}
+	// a block that contains the probing peers followed (or preceded) by an oversized one: the extension is malformed as a
+	// whole and must not be honoured on the strength of its well-formed part
+	for _, goodBlock := range []asn1.BitString{{Bytes: []byte{}, BitLength: 0}, {Bytes: []byte{11}, BitLength: 8}, {Bytes: []byte{192, 168, 1, 1}, BitLength: 32}} {
+		over := asn1.BitString{Bytes: []byte{1, 2, 3, 4, 5}, BitLength: 40}
+		enc([]fam{{AddressFamily: []byte{0, 1, 1}, Addresses: []asn1.BitString{goodBlock, over}}})
+		enc([]fam{{AddressFamily: []byte{0, 1, 1}, Addresses: []asn1.BitString{over, goodBlock}}})
+		enc([]fam{{AddressFamily: []byte{0, 1, 1}, Addresses: []asn1.BitString{goodBlock}}, {AddressFamily: []byte{0, 1, 1}, Addresses: []asn1.BitString{over}}})
+	}
 	enc([]fam{})
 	enc([]fam{{AddressFamily: []byte{0, 1, 1}}})
 	enc([]fam{{AddressFamily: []byte{}, Addresses: []asn1.BitString{{Bytes: []byte{10}, BitLength: 8}}}})
@@ -393,9 +401,19 @@ func TestVerifC11(t *testing.T) {
 				break
 			}
 			if ok {
-				// legitimate only if a well-formed v4 block <= 32 bits contains peer
+				// legitimate only if the extension is well formed, no IPv4 block in it is oversized, and one contains peer
 				legit := false
-				if wellFormed {
+				oversized := false
+				for _, f := range fams {
+					if len(f.AddressFamily) >= 2 && f.AddressFamily[0] == 0 && f.AddressFamily[1] == 1 {
+						for _, a := range f.Addresses {
+							if a.BitLength > 32 {
+								oversized = true
+							}
+						}
+					}
+				}
+				if wellFormed && !oversized {
 					for _, f := range fams {
 						if len(f.AddressFamily) < 2 || f.AddressFamily[0] != 0 || f.AddressFamily[1] != 1 {
 							continue
